@@ -32,6 +32,36 @@ claim("C06", "contract equivalence by canonical form (AST -> lambda-term IR, sig
       "Trusted: the lowering/canonicaliser (sa/terms.py), the reference terms (sa/ref), Bounds invariant lower<=upper "
       "(checked on Bounds.__init__), acyclic models (C10).", "§4/C06")
 
+EQ = "contract equivalence by canonical form (AST -> λ-term IR with maz/functools/operator lowering, sign case split, polynomial / Σ normal forms)"
+BASE_NOTE = ("Trusted: lowering + canonicaliser (sa/terms.py) and the hand-written reference terms (sa/ref); models acyclic (C10). "
+             "Decides code ≡ formula for all inputs; formula ⇒ property is the short argument in DESIGN.md. ")
+
+claim("C03", EQ,
+      "For all inputs (structural induction): assume/evaluate/evaluate_propositions and variable.evaluate are proven equal to the "
+      "arithmetic truth function transcribed from the property (K1-K7), per sign case.", BASE_NOTE, "§4/C03")
+claim("C04", EQ + "; affine-relation analysis of negate()",
+      "Every connective constructor, the cicJE rule tables and the JSON dispatcher are proven equal to their kernel forms; "
+      "Imply/XNor/Not additionally inherit the complement obligations of negate() (one known finding: mixed branch).",
+      BASE_NOTE + "Boolean leaves; kernel semantics from C03.", "§4/C04")
+claim("C05", "affine-relation analysis of negate() per (return path x sign) + typestate 'solver-safe form' + id rule",
+      "For every return path of negate() and both signs: sign'·Σchildren' - value' ≡ -(sign·Σchildren - value) - 1 as linear forms "
+      "(children negated by induction), sign' = +1 or no compound child, id kept iff explicit. One known finding (mixed branch).",
+      BASE_NOTE + "Constructor projections justified by the AtLeast.__init__ contract (an obligation).", "§4/C05")
+claim("C07", EQ + "; dataflow rule on the children handed to the result constructor",
+      "Hypotheses H1-H4 of the compositionality proof are decided statically: kernel, own-id override, leaf rule, and 'no child "
+      "loses its definition' (the defect repaired by fix 2a86685).", BASE_NOTE + "Assumed values within bounds.", "§4/C07")
+claim("C08", EQ + "; sibling agreement of the bounds kernels of reduce and assume",
+      "reduce() is proven equal to constant substitution into sign·Σ >= value (R1-R5), per sign case, and its kernel agrees with "
+      "assume's.", BASE_NOTE, "§4/C08")
+claim("C09", "interprocedural effect / alias analysis (may-write sets on pre-existing objects) + memoisation key-adequacy rule",
+      "Every public query has an empty may-write set on self/parameters/reachable objects/module state across the whole call graph "
+      "of the package, except listed known findings; no process-wide memoisation with a key coarser than what the body reads.",
+      "Trusted: alias abstraction and the external in-place/pure table of sa/effects.py; user solvers pure; name-based dispatch "
+      "over-approximates dynamic dispatch. Positive/negative controls run on every invocation.", "§3.4 E1, §4/C09")
+claim("C18", EQ + "; effect analysis of add()",
+      "add() ≡ guard-over-all-children-raises, else StingyConfigurator(*(children+[p]), id=self.id); add() writes nothing "
+      "pre-existing.", BASE_NOTE, "§4/C18")
+
 
 def build():
     from sa import props
